@@ -47,9 +47,16 @@ func applyTranformToModel(model, transform *sysl.Module, params ...string) (*sys
 		sort.Strings(apps)
 		return nil, errors.Errorf("app %s does not exist in model, available Apps: [%s]", params[0], strings.Join(apps, ", "))
 	}
-	view := transform.Apps[params[1]].Views[params[3]]
+	transformApp, has := transform.Apps[params[1]]
+	if !has {
+		return nil, errors.Errorf("transform does not define an application to take view %s from", params[3])
+	}
+	view := transformApp.Views[params[3]]
 	if view == nil {
 		return nil, errors.Errorf("Cannot execute missing view: %s, in app %s", params[3], params[1])
+	}
+	if view.Expr == nil {
+		return nil, errors.Errorf("Cannot execute abstract view: %s, in app %s", params[3], params[1])
 	}
 	s := eval.Scope{}
 	s.AddApp("app", modelApp)
@@ -58,7 +65,11 @@ func applyTranformToModel(model, transform *sysl.Module, params ...string) (*sys
 	s["basePath"] = eval.MakeValueString(params[4])
 	var result *sysl.Value
 
-	if perTypeTransform(view.Param) {
+	perType, err := perTypeTransform(view.Param)
+	if err != nil {
+		return nil, errors.Wrapf(err, "view %s, in app %s", params[3], params[1])
+	}
+	if perType {
 		result = eval.MakeValueList()
 		var tNames []string
 		for tName := range modelApp.Types {
@@ -78,7 +89,7 @@ func applyTranformToModel(model, transform *sysl.Module, params ...string) (*sys
 	return result, nil
 }
 
-func perTypeTransform(params []*sysl.Param) bool {
+func perTypeTransform(params []*sysl.Param) (bool, error) {
 	paramMap := make(map[string]struct{})
 
 	for _, p := range params {
@@ -87,12 +98,12 @@ func perTypeTransform(params []*sysl.Param) bool {
 
 	if _, has := paramMap["app"]; has {
 		if _, has := paramMap["type"]; has {
-			return true
+			return true, nil
 		}
 	} else {
-		panic("Expecting at least an app <: sysl.App")
+		return false, errors.New("Expecting at least an app <: sysl.App")
 	}
-	return false
+	return false, nil
 }
 
 // Serialize serializes node to string
@@ -176,12 +187,16 @@ func GenerateCode(
 		}
 	case fileNames.GetList() != nil && result.GetList() != nil:
 		fileValues := fileNames.GetList().Value
+		if len(fileValues) < len(result.GetList().Value) {
+			return nil, errors.Errorf("filename view gives %d names for %d transformation results",
+				len(fileValues), len(result.GetList().Value))
+		}
 		for i, v := range result.GetList().Value {
 			filename := fileValues[i].GetMap().Items["filename"].GetS()
 			codeOutput = appendCodeOutput(g, v, logger, codeOutput, filename)
 		}
 	default:
-		panic("Unexpected combination for filenames and transformation results")
+		return nil, errors.New("Unexpected combination for filenames and transformation results")
 	}
 
 	return codeOutput, nil
